@@ -13,6 +13,7 @@ from harness import core
 from harness.props import c20_values as V
 from harness.props import c20_tables as TB
 from harness.props import c20_registered as RG
+from harness.props import c20_behaviour as BH
 from translate import schemas as tr
 
 ID = 'C20'
@@ -259,6 +260,20 @@ def gen_cases(ctx, rng):
             cases.append(('pos', cname, 'good', i))
         for i in range(len(dom.bad)):
             cases.append(('pos', cname, 'bad', i))
+    # single-option deviations from a NON-default base: a non-empty `answers` supplied together with each in-domain
+    # value of every other option (options may change what the constructor does with the answers)
+    for cname, table in T.items():
+        a = table.options.get('answers')
+        if a is None or a.default is TB.REQUIRED:
+            continue
+        nonempty = [i for i, v in enumerate(a.dom.good) if v not in ((), [], {})]
+        if not nonempty:
+            continue
+        for opt, o in table.options.items():
+            if opt == 'answers':
+                continue
+            for j in range(len(o.dom.good)):
+                cases.append(('kw', cname, tuple(sorted((('answers', 'good', nonempty[(j + len(opt)) % len(nonempty)]), (opt, 'good', j))))))
     n_single = len(cases)
     # random multi-option combinations
     n_multi = 700 if ctx['tier'] == 'quick' else 6000
@@ -364,14 +379,34 @@ def check_case(case, res=None, witnesses=None):
         w.append(d)
 
     is_pos = case[0] == 'pos'
+    owned = BH.struct_copy(pos if is_pos else cfg)      # what the caller owns, before anything is constructed
+    owned_text = BH.canon(owned)
+
+    def caller_unchanged(after):
+        now = pos if is_pos else cfg
+        if BH.canon(now) != owned_text:
+            if isinstance(now, dict) and isinstance(owned, dict):
+                diff = ['%s: before %s, now %s' % (k, BH.canon(owned.get(k, '<absent>'))[:110], BH.canon(now.get(k, '<absent>'))[:160])
+                        for k in sorted(set(now) | set(owned)) if BH.canon(now.get(k, '<absent>')) != BH.canon(owned.get(k, '<absent>'))]
+            else:
+                diff = ['before %s, now %s' % (owned_text[:120], BH.canon(now)[:160])]
+            witness('caller-container-modified', "%s modified the caller's containers -- %s" % (after, '; '.join(diff[:2])))
+            return False
+        return True
 
     def construct(form):
         if is_pos:
             return core.guarded(cls, pos)
         if form == 'kw':
             return core.guarded(lambda: cls(**cfg))
-        return core.guarded(cls, dict(cfg))
+        d = dict(cfg)
+        r = core.guarded(cls, d)
+        if BH.canon(d) != owned_text:
+            witness('caller-container-modified', 'the configuration dictionary handed to the constructor was modified: %s'
+                    % BH.canon(d)[:240])
+        return r
     st, obj = construct('kw')
+    caller_unchanged('construction (keyword form)')
     if res is not None:
         res.oracle_evals += 1
     if st == 'timeout':
@@ -388,6 +423,7 @@ def check_case(case, res=None, witnesses=None):
             witness('out-of-domain-accepted', 'a supplied option is outside its documented domain (or a cross-option rule is '
                     'violated) but construction succeeded; config=%r' % (getattr(obj, 'config', None),))
             return w
+        caller_unchanged('the refused construction')
         if not is_config_or_validation_error(obj):
             witness('wrong-error-class', 'refused configuration raised %s (%s), which is neither a configuration nor a '
                     'validation error' % (type(obj).__name__, str(obj)[:160]),
@@ -474,13 +510,27 @@ def check_case(case, res=None, witnesses=None):
             elif not same(obj3, obj) or not same(obj3.config, conf):
                 witness('rebuild-differs', 'the grader rebuilt from its configuration is not equal to the original: %r vs %r'
                         % (obj3.config, conf))
-        # kwargs / dict equivalence
+        # kwargs / dict equivalence: equal objects, canonically equal configurations, same behaviour
         st2, obj2 = construct('dict')
+        caller_unchanged('construction (dictionary form)')
         if st2 != 'ret':
             witness('kwargs-dict-differ', 'keyword form succeeded but dictionary form raised %s' % type(obj2).__name__)
-        elif not same(obj2, obj):
-            witness('kwargs-dict-differ', 'keyword and dictionary forms give different configurations: %r vs %r'
-                    % (obj.config, obj2.config))
+        elif not same(obj2, obj) or BH.canon(obj2.config) != BH.canon(obj.config):
+            c1, c2 = obj.config, obj2.config
+            if isinstance(c1, dict) and isinstance(c2, dict):
+                diff = ['%s: keyword form %s / dictionary form %s' % (k, BH.canon(c1.get(k, '<absent>'))[:170], BH.canon(c2.get(k, '<absent>'))[:170])
+                        for k in sorted(set(c1) | set(c2)) if BH.canon(c1.get(k, '<absent>')) != BH.canon(c2.get(k, '<absent>'))]
+            else:
+                diff = ['%s / %s' % (BH.canon(c1)[:170], BH.canon(c2)[:170])]
+            witness('kwargs-dict-differ', 'keyword and dictionary forms give different configurations -- ' + '; '.join(diff[:2]))
+        else:
+            b1, b2 = BH.behaviour(obj, cfg), BH.behaviour(obj2, cfg)
+            if res is not None:
+                res.oracle_evals += len(b1)
+            if b1 != b2:
+                d = [(x[0], x[1][:120], y[1][:120]) for x, y in zip(b1, b2) if x != y]
+                witness('kwargs-dict-behaviour-differ', 'objects built from the keyword and the dictionary form behave differently '
+                        '(input, keyword form, dictionary form): %r' % (d[:2],))
     else:
         _, POS = tables()
         dom = POS[case[1]][1]
@@ -533,6 +583,7 @@ def run(ctx):
                 'distinct (class, input) pairs of recorded validate_config / rule calls')
     w = world()
     cases, n_single = gen_cases(ctx, rng)
+    fresh = start_fresh_probe()
     rec = V.FullRecorder(w)
     outcomes = {'accepted': 0, 'refused': 0}
     with rec.recording():
@@ -548,6 +599,8 @@ def run(ctx):
                 pass
         registered_defaults_cases(res)
         RG.run_all(ctx, res)
+        BH.reuse_histories(ctx, tables()[0], res)
+    compare_with_fresh_probe(fresh, res)
     for wit in res.witnesses:
         outcomes[wit['kind']] = outcomes.get(wit['kind'], 0) + 1
     recs = rec.take_all()
@@ -559,6 +612,41 @@ def run(ctx):
     run_correspondence(ctx, res, recs, w)
     res.samples.append({'case': list(cases[n_single // 2]), 'resolved': repr(resolve(cases[n_single // 2])[1:4])[:300]})
     return res
+
+
+def start_fresh_probe():
+    """fingerprints of the fixed probe set computed in a NEW interpreter (nothing has run there before)"""
+    import os
+    import subprocess
+    import sys
+    env = dict(os.environ, PYTHONPATH='%s:%s' % (core.REPO, core.VERIF), PYTHONHASHSEED='0', PYTHONDONTWRITEBYTECODE='1')
+    return subprocess.Popen(['timeout', '300', sys.executable, '-B', '-m', 'harness.props.c20_behaviour'], cwd=core.VERIF, env=env,
+                            stdout=subprocess.PIPE, stderr=subprocess.PIPE, text=True)
+
+
+def compare_with_fresh_probe(proc, res):
+    """perturb-then-probe: after the whole sweep (the perturbers) every probe must construct and behave exactly as in a
+    fresh interpreter; a difference is a history-dependence witness"""
+    import json
+    out, err = proc.communicate()
+    try:
+        fresh = json.loads(out)
+    except ValueError:
+        res.witnesses.append({'key': 'fresh-probe', 'kind': 'harness-error', 'case': ['fresh-probe'],
+                              'what': 'fresh-interpreter probe did not run: %s' % err[-300:]})
+        return
+    here = json.loads(json.dumps(BH.fingerprints()))
+    res.oracle_evals += len(here)
+    res.distribution['fresh_interpreter_probes'] = len(here)
+    for key in sorted(fresh):
+        if here.get(key) != fresh[key]:
+            a, b = fresh[key], here.get(key) or {}
+            what = ('construction: fresh %s / after the sweep %s' % (a['construct'][:160], str(b.get('construct'))[:160])
+                    if a['construct'] != b.get('construct') else
+                    'behaviour: fresh %r / after the sweep %r' % ([x for x in a.get('behaviour', []) if x not in b.get('behaviour', [])][:2],
+                                                                 [x for x in b.get('behaviour', []) if x not in a.get('behaviour', [])][:2]))
+            res.witnesses.append({'key': 'history:' + key, 'kind': 'history-dependence', 'case': ['history', key],
+                                  'what': 'probe %s differs from the same probe in a fresh interpreter -- %s' % (key, what)})
 
 
 def dedup(items, key):
@@ -676,12 +764,33 @@ def run_correspondence(ctx, res, recs, w):
 
 
 # ------------------------------------------------------------------------------------------------
+def check_many_then_probe():
+    """replay of a history-dependence witness: the quick sweep again, then the probes against a fresh interpreter"""
+    ctx = {'tier': 'quick', 'seed': 0, 'escalate': False}
+    res = core.Result()
+    fresh = start_fresh_probe()
+    cases, _ = gen_cases(ctx, random.Random(20))
+    scratch = []
+    for c in cases:
+        check_case(c, None, scratch)
+    compare_with_fresh_probe(fresh, res)
+    return res.witnesses
+
+
 def _tuplify(x):
     return tuple(_tuplify(y) for y in x) if isinstance(x, (list, tuple)) else x
 
 
 def replay(w):
     case = _tuplify(w['case'])
+    if case and case[0] == 'reuse':
+        found = BH.run_reuse_history(int(case[1]), int(case[2]), tables()[0])
+        return bool(found), 'reuse history %r: %s' % (case[1:], found[0]['what'] if found else "the caller's containers are left alone")
+    if case and case[0] == 'history':
+        res = core.Result()
+        res.witnesses += check_many_then_probe()
+        hit = [x for x in res.witnesses if x['case'] == list(case)] or res.witnesses
+        return bool(hit), (hit[0]['what'] if hit else 'every probe agrees with the fresh interpreter after the sweep')
     if case and case[0] == 'registered-history':
         found = RG.replay_case(list(case))
         return bool(found), ('history %r: ' % (case[1:],)) + (found[0]['what'] if found else
